@@ -327,15 +327,19 @@ func c13RestartBody(t *testing.T, s *sim.Scn, o *sim.Outcome) {
 	// which on a zero-latency network never lets the fake clock advance
 	rw.streamDelay = time.Duration(20+s.Cfg["linkms"]%40) * time.Millisecond
 	nfull := 1 + int(s.Cfg["nfull"]%2)
-	for i := 0; i <= nfull; i++ {
+	nlight := int(s.Cfg["light"] % 2)
+	for i := 0; i <= nfull+nlight; i++ {
 		name := "seq"
 		if i > 0 {
 			name = fmt.Sprintf("full%d", i)
 		}
+		if i > nfull {
+			name = "light1"
+		}
 		priv := sim.KeyFromSeed("nodekey-" + name)
 		addr, _ := multiaddr.NewMultiaddr(fmt.Sprintf("/ip4/10.0.0.%d/tcp/7676", i+1))
 		pid, _ := peer.IDFromPublicKey(priv.GetPublic())
-		rn := &rnode{name: name, idx: i, agg: i == 0, nk: &key.NodeKey{PrivKey: priv, PubKey: priv.GetPublic()}, addr: addr, pid: pid}
+		rn := &rnode{name: name, idx: i, agg: i == 0, light: i > nfull, nk: &key.NodeKey{PrivKey: priv, PubKey: priv.GetPublic()}, addr: addr, pid: pid}
 		rn.sn = rw.w.AddNode(sim.NodeCfg{Name: name, Aggregator: i == 0, BlockTime: rw.bt, DABlockTime: rw.dat})
 		rw.nodes = append(rw.nodes, rn)
 		if i == 0 {
@@ -343,6 +347,7 @@ func c13RestartBody(t *testing.T, s *sim.Scn, o *sim.Outcome) {
 		}
 	}
 	agg := rw.nodes[0]
+	fulls := rw.nodes[1 : 1+nfull]
 	rw.w.DA.Latency = time.Duration(s.Cfg["dalat"]) * time.Millisecond
 	ledger := sim.NewLedger(rw.w, agg.sn)
 	envDone := make(chan struct{})
@@ -507,7 +512,7 @@ func c13RestartBody(t *testing.T, s *sim.Scn, o *sim.Outcome) {
 	final := 40*rw.dat + 60*time.Second
 	time.Sleep(final)
 	reached := map[string]uint64{}
-	for _, x := range rw.nodes[1:] {
+	for _, x := range fulls {
 		reached[x.name] = x.sn.Height()
 	}
 	if !rw.reap(len(s.Ops), "final phase") {
@@ -544,7 +549,31 @@ func c13RestartBody(t *testing.T, s *sim.Scn, o *sim.Outcome) {
 		return
 	}
 	bg := context.Background()
-	for _, f := range rw.nodes[1:] {
+	// a header-only node: whatever its P2P header store holds after all the stops, kills and cuts is the proposer's
+	for _, v := range rw.nodes[1+nfull:] {
+		st, err := p2pHeaderStore(v)
+		if err != nil {
+			panic(err)
+		}
+		head, err := st.Head(bg)
+		if err != nil {
+			o.Count("light-node:p2p-header-store-empty", 1)
+			continue
+		}
+		o.Count("light-node:p2p-header-store-height", int(head.Height()))
+		for x := uint64(1); x <= head.Height(); x++ {
+			hd, err := st.GetByHeight(bg, x)
+			if err != nil {
+				continue
+			}
+			a, _, e1 := agg.sn.Peek().GetBlockData(bg, x)
+			if e1 != nil || !bytes.Equal(a.Hash(), hd.Hash()) {
+				o.Fail("C13/invariant-C02-violated", "C13/invariant-C02-violated/light-node-header-store", -1, fmt.Sprintf("%s holds at height %d a header that is not the proposer's (%v)", v.name, x, e1), "the proposer's headers")
+				return
+			}
+		}
+	}
+	for _, f := range fulls {
 		fh := f.sn.Height()
 		for x := uint64(1); x <= fh; x++ {
 			a, _, e1 := agg.sn.Peek().GetBlockData(bg, x)
@@ -574,7 +603,7 @@ func c13RestartBody(t *testing.T, s *sim.Scn, o *sim.Outcome) {
 func c13RestartGen(r *rand.Rand, tier string) *sim.Scn {
 	s := &sim.Scn{Cfg: map[string]int64{
 		"restart": 1, "nfull": r.Int64N(2), "bt": []int64{250, 500, 1000}[r.IntN(3)], "dat": []int64{1000, 3000}[r.IntN(2)],
-		"lazy": r.Int64N(2), "maxpending": []int64{0, 0, 3}[r.IntN(3)], "dalat": []int64{0, 5, 50}[r.IntN(3)], "linkms": []int64{0, 3, 18, 38}[r.IntN(4)], "eager": r.Int64N(2),
+		"lazy": r.Int64N(2), "maxpending": []int64{0, 0, 3}[r.IntN(3)], "dalat": []int64{0, 5, 50}[r.IntN(3)], "linkms": []int64{0, 3, 18, 38}[r.IntN(4)], "eager": r.Int64N(2), "light": []int64{0, 0, 1}[r.IntN(3)],
 	}}
 	n := 4 + r.IntN(10)
 	for i := 0; i < n; i++ {
@@ -584,13 +613,13 @@ func c13RestartGen(r *rand.Rand, tier string) *sim.Scn {
 		case x < 50:
 			s.Ops = append(s.Ops, sim.Op{K: "tx", B: r.Int64N(3)})
 		case x < 62:
-			s.Ops = append(s.Ops, sim.Op{K: "stop", A: r.Int64N(3)})
+			s.Ops = append(s.Ops, sim.Op{K: "stop", A: r.Int64N(4)})
 		case x < 70:
-			s.Ops = append(s.Ops, sim.Op{K: "kill", A: r.Int64N(3)})
+			s.Ops = append(s.Ops, sim.Op{K: "kill", A: r.Int64N(4)})
 		case x < 85:
-			s.Ops = append(s.Ops, sim.Op{K: "start", A: r.Int64N(3)})
+			s.Ops = append(s.Ops, sim.Op{K: "start", A: r.Int64N(4)})
 		case x < 91:
-			s.Ops = append(s.Ops, sim.Op{K: "cut", A: r.Int64N(3)})
+			s.Ops = append(s.Ops, sim.Op{K: "cut", A: r.Int64N(4)})
 		case x < 96:
 			s.Ops = append(s.Ops, sim.Op{K: "heal"})
 		case x < 98:
